@@ -15,7 +15,7 @@ _C, _F, _T = load_contracts()
 
 
 def fns(*props, extra=()):
-    out = [q for q, c in _C.items() if set(props) & set(c.get('props', []))]
+    out = [q for q, c in _C.items() if set(props) & set(c.get('props', [])) and not c.get('external') and not c.get('external_for_main')]
     return out + [q for q in extra if q not in out]
 
 
@@ -84,4 +84,28 @@ PROPS['C07'] = dict(
     static=[('no-recursion-in-backward-search', ST.no_self_call('reverse_dfs', 'reverse_dfs_recursive'))],
     level_text="All six functions of reverse_dfs.py are verified from their real AST for graphs of any size: the reversed table has an entry for every state and lists u under v exactly once per transition u->v (stated with counting functions: CountI(rev[v], u) = CountT(tl[u], v) for all u, v); the work-list search returns a duplicate-free list that extends its accumulator, contains the start state, is closed under predecessors and sound w.r.t. any reachability predicate; reverse_dfs returns a strictly ascending list (each state once) of non-final states inside every predicate closed under the reachability rules, and result+finals is closed under predecessors -- with the Lean meta-lemma M_LFP this is exactly the set of non-final states that can reach a final state.",
     level_note="Trusted: z3/cvc5, the encoder (value model for locally built lists/dicts), the assumed contract of list.sort (ascending permutation), Lean's kernel for M_LFP. Termination of the work-list loop is not proved (no recursion remains, so depth is not an issue). Inputs are assumed in range (targets and finals in 0..n-1), which check_game/check_next_states establish.",
+)
+
+from .strings_c17 import LEMMAS as C17_STR
+A_EXT = "assumed contracts of external functions: random.random() in [0,1) including 0.0; random.choices returns k members of the population; random.randrange(a,b) in [a,b); math.log negative on (0,1), non-negative from 1, log 2 > 0; math.floor = floor; 2.0**k >= 1 for k >= 0 and >= 2 for k >= 1 (no overflow: A-REAL); argparse returns ints / IEEE doubles (NaN and infinities included) of the declared types"
+GEN_CONE = [('roberta_generator', f) for f in ('gen_rnd_board', 'get_random_moves')]
+PROPS['C15'] = dict(
+    functions=fns('C15'),
+    static=[('board-draws-depend-only-on-seed-and-parameters', ST.seeded_randomness('roberta_generator', 'gen_rnd_board', ['get_random_moves']))],
+    assumptions=[A_LIST, A_EXT, "check_input, prob_to_str and main are encoded in IEEE-754 binary64 (round-to-nearest-even); gen_rnd_board/get_random_moves in reals (A-REAL)", A_VALUE],
+    trusted_base=['z3 floating-point theory (FP sorts) for the parameter checks'],
+    undecided_clauses=["'loose-tile flags occur with the requested frequency' is a statistical statement; only its per-draw definition (flag = 1 iff the draw is below the probability) is covered, by the executable contracts",
+                       "'identical every time the same seed is used' rests on the assumed contract of the random module plus the static scan that random.seed(seed) is the first effect and nothing else is read"],
+    level_text="check_input is loop-free and verified in Float64 over its full symbolic domain (a complete proof): a normal return implies seed >= 0, sizes >= 1, max reward >= 1 and 0 < p < 1 (hence not NaN) for all four probabilities, and ValueError is raised only outside that set; main reaches write_robots only after check_input returned, with exactly those facts (refused before anything is written); gen_rnd_board/get_random_moves: requested length and width for all three grids, rewards integers in 0..max_reward, flags in {0,1}, arrows in {0,1,2} without force-down (no down-only tile) and in {0..3} with at least one 3 per row with it -- for boards of any size.",
+    level_note="Trusted: z3/cvc5 incl. the FP theory, the encoder, the assumed contracts of random/math/argparse, A-REAL for the reward formula (2.0**k overflow for max_reward >= 1023 is outside it). Frequency is not a contract; reproducibility is a static argument over the assumed contract of random.",
+)
+PROPS['C17'] = dict(
+    functions=fns('C17'),
+    smt_lemmas=C17_STR,
+    assumptions=["prob_to_str and main are encoded in IEEE-754 binary64", "A-STRINT: str(int) of a non-negative int is a non-empty digit string and injective (z3 int.to.str); checked against CPython by the executable contracts",
+                 A_EXT],
+    trusted_base=['z3 FP theory; cvc5 string theory (--strings-exp) for the peel lemmas'],
+    undecided_clauses=["the final step from the eight peel lemmas to 'two different whole-percent parameter sets never share a file' is the composition of the stages (each stage's conclusion is the next stage's hypothesis); the single nine-field query is beyond both string solvers (100 s), so the composition is argued in DESIGN.md and exercised by the executable contracts"],
+    level_text="prob_to_str is verified in Float64 for every k = 1..99 (99 ground instances of the real function: exhaustive over the finite domain) to return str(k) for the double nearest k/100; main is symbolically executed and the file name passed to write_robots is proved equal to the tagged concatenation inputs/robot_<seed>_w<width>_l<length>_r<max>_rb<P>_lb<P>_tb<P>_lt<P>[_force_down].py with the right parameter in every field; field-by-field injectivity of that shape is proved as eight string lemmas by cvc5.",
+    level_note="Trusted: z3 (FP), cvc5 (strings), the encoder, argparse's assumed contract. Exhaustive for the 99 whole percentages; other probabilities are named by rounding (not claimed injective).",
 )
